@@ -21,6 +21,29 @@ CLAIMS: dict[str, tuple[str, str, str, str]] = {
         'conversions (value arithmetic). Axioms: durations are >= 0; x - floor(x) in [0,1). '
         'Trusted: CPython ast, re._parser.',
         'DESIGN.md section 4, C19'),
+    'C13': (
+        'path-sensitive zone-domain abstract interpretation of get_http_range + call-site rules',
+        'For every Range header value at once: on each exit path of get_http_range the zone '
+        'domain must imply 0 <= start <= end <= length-1 where the status is 206 and '
+        'unsatisfiability (start >= length or start > end) where it is 416; the Content-Range '
+        'text must be built from the definitions of start/end that reach the return; both '
+        'callers must map ValueError to 400, slice with an inclusive end, and nothing else may '
+        'read the Range header. Decides the status/bounds/Content-Range clauses; body equality '
+        'only structurally (same variables, inclusive convention).',
+        "Axioms: pieces of split('-') parse to ints >= 0 or raise ValueError; length >= 0. "
+        'Trusted: CPython ast; the zone closure. Not decided: equality of the body bytes.',
+        'DESIGN.md section 4, C13'),
+    'C20': (
+        'linear normal forms + must-fact data-flow + zone-domain proof over BufferedReader',
+        'Window discipline of BufferedReader for every operation sequence: each absolute position '
+        'handed to the underlying reader contains the window offset, each tell() is translated '
+        'back; every byte string returned by peek/read/readall is bounded by a count clamped to '
+        'size - pos when the size is known; every exit of seek implies 0 <= pos <= size; cache '
+        'eviction/insertion keep the counter paired and bucket keys aligned. These are necessary '
+        'conditions of slice-equivalence, not the equivalence itself.',
+        'Axiom: a known window size is >= 0. Not decided: equality with BytesIO over operation '
+        'sequences, LRU choice. Trusted: CPython ast.',
+        'DESIGN.md section 4, C20'),
 }
 
 NOT_APPLICABLE: dict[str, str] = {
